@@ -419,8 +419,11 @@ def check_arrays(mod, col: Collector, tier: str):
         for j, g in enumerate(gs):
             g.a = 10 + j
         for i in range(-n, n):
-            for v in [mod.VSUB(), mod.VOTHER(), mod.VINNER(), None, 1, Other()]:
+            # (empty and one-element containers: "no struct at all" and "a struct inside something" are not structs of the element type)
+            for v in [mod.VSUB(), mod.VOTHER(), mod.VINNER(), None, 1, Other(), (), [], "", b"", {}, (mod.VSUB(),), [mod.VSUB()]]:
                 m = Mn()
+                for el in m.sa:
+                    el.a = 7
                 arr = m.sa
                 ok = isinstance(v, mod.VSUB)
                 if ok:
